@@ -98,8 +98,8 @@ def run(L, tier, only=None):
             L.lemma("C08 VM arm " + op, arm_lemma(op))
     covered, not_covered = [], []
     # the refusal that bounds a quick lemma is the path budget (deterministic), not the clock
-    L.ex.path_budget = 1000 if tier == "quick" else 20000
-    L.lemma_time_budget = 120 if tier == "quick" else 240
+    L.ex.path_budget = 1000 if tier == "quick" else 8000
+    L.lemma_time_budget = 120 if tier == "quick" else 100
     times = {}
 
     def one(name, w, fn):
